@@ -313,7 +313,14 @@ func successEdges(c ssa.CallInstruction) []edge {
 }
 
 // reachable computes the blocks reachable from `from` (entry if nil) when the
-// cut edges are removed.
+// cut edges are removed. The traversal is edge-sensitive for one idiom: a block
+// whose branch tests a phi of that block (directly, negated, or compared with
+// nil / a boolean constant) is left only through the successor consistent with
+// the value the phi takes on the edge it was entered by, when that value is
+// known (a constant, a value that cannot be nil, or a value whose test decided
+// the single edge into the predecessor). This is what the merged return of an
+// inlined `if err := helper(); err != nil` looks like, and the source of the
+// classic infeasible path through it.
 func reachable(f *ssa.Function, from *ssa.BasicBlock, cut []edge) map[*ssa.BasicBlock]bool {
 	cutset := map[edge]bool{}
 	for _, e := range cut {
@@ -326,18 +333,31 @@ func reachable(f *ssa.Function, from *ssa.BasicBlock, cut []edge) map[*ssa.Basic
 	if from == nil {
 		from = f.Blocks[0]
 	}
-	work := []*ssa.BasicBlock{from}
+	type st struct{ b, via *ssa.BasicBlock }
+	done := map[st]bool{}
+	work := []st{{from, nil}}
+	done[work[0]] = true
 	seen[from] = true
 	for len(work) > 0 {
-		b := work[len(work)-1]
+		cur := work[len(work)-1]
 		work = work[:len(work)-1]
+		b := cur.b
+		okT, okF := true, true
+		if cur.via != nil {
+			okT, okF = feasibleSuccs(b, cur.via)
+		}
 		for i, s := range b.Succs {
 			if cutset[edge{b, i}] {
 				continue
 			}
-			if !seen[s] {
+			if len(b.Succs) == 2 && ((i == 0 && !okT) || (i == 1 && !okF)) {
+				continue
+			}
+			n := st{s, b}
+			if !done[n] {
+				done[n] = true
 				seen[s] = true
-				work = append(work, s)
+				work = append(work, n)
 			}
 		}
 	}
@@ -346,6 +366,127 @@ func reachable(f *ssa.Function, from *ssa.BasicBlock, cut []edge) map[*ssa.Basic
 		seen[f.Recover] = true
 	}
 	return seen
+}
+
+// testedValue strips negations and comparisons with nil / boolean constants from a branch condition:
+// cond is equivalent to (base is "truthy") == pos, where truthy means non-nil / true.
+func testedValue(cond ssa.Value) (base ssa.Value, pos bool) {
+	pos = true
+	for depth := 0; depth < 6; depth++ {
+		switch x := cond.(type) {
+		case *ssa.UnOp:
+			if x.Op == token.NOT {
+				cond = x.X
+				pos = !pos
+				continue
+			}
+		case *ssa.BinOp:
+			if x.Op == token.EQL || x.Op == token.NEQ {
+				var other ssa.Value
+				var c *ssa.Const
+				if k, ok := x.Y.(*ssa.Const); ok {
+					other, c = x.X, k
+				} else if k, ok := x.X.(*ssa.Const); ok {
+					other, c = x.Y, k
+				}
+				if c != nil {
+					truthyConst := false
+					known := false
+					if c.Value == nil {
+						truthyConst, known = false, true // nil
+					} else if c.Value.Kind() == constant.Bool {
+						truthyConst, known = constant.BoolVal(c.Value), true
+					}
+					if known {
+						// other == c  <=> truthy(other) == truthyConst
+						eq := x.Op == token.EQL
+						if eq != truthyConst {
+							pos = !pos
+						}
+						cond = other
+						continue
+					}
+				}
+			}
+		}
+		break
+	}
+	return cond, pos
+}
+
+// truthiness: 1 = known non-nil/true, -1 = known nil/false, 0 = unknown; `at` is the block the value flows out of.
+func truthiness(v ssa.Value, at *ssa.BasicBlock) int {
+	switch x := v.(type) {
+	case *ssa.Const:
+		if x.Value == nil {
+			return -1
+		}
+		if x.Value.Kind() == constant.Bool {
+			if constant.BoolVal(x.Value) {
+				return 1
+			}
+			return -1
+		}
+		return 0
+	case *ssa.MakeInterface:
+		return 1
+	case *ssa.Call:
+		switch calleeName(x) {
+		case "fmt.Errorf", "errors.New":
+			return 1
+		}
+	}
+	// decided by the test that guards the single edge into `at`
+	if at != nil && len(at.Preds) == 1 {
+		q := at.Preds[0]
+		if len(q.Instrs) > 0 {
+			if ifi, ok := q.Instrs[len(q.Instrs)-1].(*ssa.If); ok && len(q.Succs) == 2 && q.Succs[0] != q.Succs[1] {
+				base, pos := testedValue(ifi.Cond)
+				if base == v {
+					onTrue := q.Succs[0] == at
+					if onTrue == pos {
+						return 1
+					}
+					return -1
+				}
+			}
+		}
+	}
+	return 0
+}
+
+// feasibleSuccs: which successors of b can be taken when b was entered from via.
+func feasibleSuccs(b, via *ssa.BasicBlock) (onTrue, onFalse bool) {
+	if len(b.Instrs) == 0 || len(b.Succs) != 2 {
+		return true, true
+	}
+	ifi, ok := b.Instrs[len(b.Instrs)-1].(*ssa.If)
+	if !ok {
+		return true, true
+	}
+	base, pos := testedValue(ifi.Cond)
+	phi, ok := base.(*ssa.Phi)
+	if !ok || phi.Block() != b {
+		return true, true
+	}
+	idx := -1
+	n := 0
+	for i, p := range b.Preds {
+		if p == via {
+			idx = i
+			n++
+		}
+	}
+	if idx < 0 || n != 1 || idx >= len(phi.Edges) {
+		return true, true
+	}
+	t := truthiness(phi.Edges[idx], via)
+	if t == 0 {
+		return true, true
+	}
+	truthy := t > 0
+	condTrue := truthy == pos
+	return condTrue, !condTrue
 }
 
 // guardedBy: target is reachable from entry only through a success edge of
@@ -1030,10 +1171,14 @@ func condEdgesOf(f *ssa.Function) []condEdge {
 		}
 		c := ifi.Cond
 		pos := true
-		for {
+		for hops := 0; hops < 4; hops++ {
 			if u, ok := c.(*ssa.UnOp); ok && u.Op == token.NOT {
 				c = u.X
 				pos = !pos
+				continue
+			}
+			if fw := forwardFieldLoad(c); fw != nil {
+				c = fw
 				continue
 			}
 			break
@@ -1109,6 +1254,7 @@ type retSite struct {
 	ret  *ssa.Return
 	pred *ssa.BasicBlock // non-nil: only when entered from this predecessor (phi edge)
 	val  ssa.Value
+	phiB *ssa.BasicBlock // the block of the (innermost) phi the value enters through
 }
 
 func errReturnSites(f *ssa.Function) []retSite {
@@ -1118,19 +1264,41 @@ func errReturnSites(f *ssa.Function) []retSite {
 	}
 	var out []retSite
 	for _, r := range returnsOf(f) {
-		v := r.Results[idx]
-		if phi, ok := v.(*ssa.Phi); ok && phi.Block() == r.Block() {
-			for i, e := range phi.Edges {
-				out = append(out, retSite{r, r.Block().Preds[i], e})
+		for _, s := range expandRetValue(r, r.Results[idx]) {
+			// a phi edge whose value decides the test between it and the return (a helper's nil result
+			// followed by `if err != nil { return err }`) is not a way to return that value
+			if s.pred != nil && !flowsToReturn(f, s, nil) {
+				continue
 			}
-			continue
+			out = append(out, s)
 		}
-		out = append(out, retSite{r, nil, v})
 	}
 	return out
 }
 
-// siteReachable: is the return site reachable from entry with the cut applied?
+// expandRetValue splits a returned value that is a phi (in the return block or in a block the return block
+// is reached from, e.g. the merged result of an inlined helper) into one site per incoming edge, transitively;
+// pred is the block the concrete value flows out of.
+func expandRetValue(r *ssa.Return, v ssa.Value) []retSite {
+	var out []retSite
+	seen := map[*ssa.Phi]bool{}
+	var rec func(v ssa.Value, pred, phiB *ssa.BasicBlock, depth int)
+	rec = func(v ssa.Value, pred, phiB *ssa.BasicBlock, depth int) {
+		if phi, ok := v.(*ssa.Phi); ok && depth < 5 && !seen[phi] && len(phi.Edges) == len(phi.Block().Preds) {
+			seen[phi] = true
+			for i, e := range phi.Edges {
+				rec(e, phi.Block().Preds[i], phi.Block(), depth+1)
+			}
+			return
+		}
+		out = append(out, retSite{r, pred, v, phiB})
+	}
+	rec(v, nil, nil, 0)
+	return out
+}
+
+// siteReachable: is the return site reachable from entry with the cut applied (for a value that enters
+// through a phi: the block it flows out of is reachable, and the return is reachable from there)?
 func siteReachable(f *ssa.Function, s retSite, cut []edge) bool {
 	reach := reachable(f, nil, cut)
 	if s.pred == nil {
@@ -1139,14 +1307,53 @@ func siteReachable(f *ssa.Function, s retSite, cut []edge) bool {
 	if !reach[s.pred] {
 		return false
 	}
-	// the edge pred -> ret block itself must not be cut
+	return flowsToReturn(f, s, cut)
+}
+
+// flowsToReturn: the value enters its phi along pred -> phiB and the return is reached from there without
+// coming back to the phi's block (where the phi would take a new value).
+func flowsToReturn(f *ssa.Function, s retSite, cut []edge) bool {
+	if s.phiB == nil {
+		return reachable(f, s.pred, cut)[s.ret.Block()]
+	}
 	cs := map[edge]bool{}
 	for _, e := range cut {
 		cs[e] = true
 	}
+	entered := false
 	for i, su := range s.pred.Succs {
-		if su == s.ret.Block() && !cs[edge{s.pred, i}] {
-			return true
+		if su == s.phiB && !cs[edge{s.pred, i}] {
+			entered = true
+		}
+	}
+	if !entered {
+		return false
+	}
+	if s.phiB == s.ret.Block() {
+		return true
+	}
+	type st struct{ b, via *ssa.BasicBlock }
+	done := map[st]bool{{s.phiB, s.pred}: true}
+	work := []st{{s.phiB, s.pred}}
+	for len(work) > 0 {
+		cur := work[len(work)-1]
+		work = work[:len(work)-1]
+		okT, okF := feasibleSuccs(cur.b, cur.via)
+		for i, su := range cur.b.Succs {
+			if cs[edge{cur.b, i}] || su == s.phiB {
+				continue
+			}
+			if len(cur.b.Succs) == 2 && ((i == 0 && !okT) || (i == 1 && !okF)) {
+				continue
+			}
+			if su == s.ret.Block() {
+				return true
+			}
+			n := st{su, cur.b}
+			if !done[n] {
+				done[n] = true
+				work = append(work, n)
+			}
 		}
 	}
 	return false
@@ -1300,4 +1507,370 @@ func isNilTestOfField(ce condEdge, field string) bool {
 		}
 	}
 	return has
+}
+
+// stringSet: the constant strings v can be: a constant, a phi of such, or an element of a slice/array whose
+// elements are all constants (a local literal, or a package-level table initialised with one and never stored to
+// elsewhere). ok=false when the set cannot be enumerated.
+func stringSet(p *Program, v ssa.Value) ([]string, bool) {
+	seen := map[ssa.Value]bool{}
+	out := map[string]bool{}
+	ok := true
+	var walk func(v ssa.Value)
+	var elems func(arr ssa.Value)
+	elems = func(arr ssa.Value) {
+		if seen[arr] {
+			return
+		}
+		seen[arr] = true
+		switch x := arr.(type) {
+		case *ssa.Slice:
+			elems(x.X)
+		case *ssa.Alloc:
+			n := 0
+			if x.Referrers() != nil {
+				for _, ref := range *x.Referrers() {
+					if ia, isIA := ref.(*ssa.IndexAddr); isIA {
+						for _, st := range storesTo(ia) {
+							n++
+							walk(st.Val)
+						}
+					}
+				}
+			}
+			if n == 0 {
+				ok = false
+			}
+		case *ssa.UnOp:
+			if g, isG := x.X.(*ssa.Global); isG && x.Op == token.MUL {
+				// the table's initialiser in the package init function(s); any other store makes it unknown
+				n := 0
+				for _, sp := range p.SSAPkg {
+					if sp.Pkg != g.Pkg.Pkg {
+						continue
+					}
+					for _, f := range pkgFuncs(p.SSA, sp) {
+						for _, b := range f.Blocks {
+							for _, in := range b.Instrs {
+								if st, isSt := in.(*ssa.Store); isSt && st.Addr == ssa.Value(g) {
+									if !strings.HasPrefix(f.Name(), "init") {
+										ok = false
+									}
+									n++
+									elems(st.Val)
+								}
+							}
+						}
+					}
+				}
+				if n == 0 {
+					ok = false
+				}
+				return
+			}
+			ok = false
+		case *ssa.Phi:
+			for _, e := range x.Edges {
+				elems(e)
+			}
+		default:
+			ok = false
+		}
+	}
+	walk = func(v ssa.Value) {
+		if seen[v] {
+			return
+		}
+		seen[v] = true
+		if s, isC := constString(v); isC {
+			out[s] = true
+			return
+		}
+		switch x := v.(type) {
+		case *ssa.Phi:
+			for _, e := range x.Edges {
+				walk(e)
+			}
+		case *ssa.UnOp:
+			if x.Op != token.MUL {
+				ok = false
+				return
+			}
+			switch a := x.X.(type) {
+			case *ssa.IndexAddr:
+				elems(a.X)
+			case *ssa.FieldAddr:
+				// a string field of a table row: rows are struct literals stored into the table's elements
+				if ia, isIA := a.X.(*ssa.IndexAddr); isIA {
+					rowFieldStrings(p, ia.X, a.Field, seen, out, &ok)
+				} else if al, isAl := a.X.(*ssa.Alloc); isAl {
+					fieldOfLocalStrings(p, al, a.Field, out, &ok)
+				} else {
+					ok = false
+				}
+			default:
+				ok = false
+			}
+		case *ssa.Index:
+			elems(x.X)
+		case *ssa.Field:
+			if ld, isLd := x.X.(*ssa.UnOp); isLd && ld.Op == token.MUL {
+				if ia, isIA := ld.X.(*ssa.IndexAddr); isIA {
+					rowFieldStrings(p, ia.X, x.Field, seen, out, &ok)
+					return
+				}
+			}
+			ok = false
+		case *ssa.ChangeType:
+			walk(x.X)
+		case *ssa.Convert:
+			walk(x.X)
+		default:
+			ok = false
+		}
+	}
+	walk(v)
+	var res []string
+	for s := range out {
+		res = append(res, s)
+	}
+	sort.Strings(res)
+	return res, ok && len(res) > 0
+}
+
+// rowFieldStrings: constants that field #fld of the struct elements of a table can hold (local literal, or a
+// package-level table initialised in init), following whole-struct copies through local struct variables.
+func rowFieldStrings(p *Program, tbl ssa.Value, fld int, seen map[ssa.Value]bool, out map[string]bool, ok *bool) {
+	n := 0
+	visited := map[ssa.Value]bool{}
+	var structVal func(v ssa.Value, depth int)  // a struct value
+	var structAddr func(a ssa.Value, depth int) // the address of a struct
+	var tableElems func(t ssa.Value, depth int) // a slice/array (value or address) of structs
+	structAddr = func(a ssa.Value, depth int) {
+		if a == nil || depth > 10 || visited[a] {
+			return
+		}
+		visited[a] = true
+		switch x := a.(type) {
+		case *ssa.Alloc:
+			if x.Referrers() == nil {
+				return
+			}
+			for _, ref := range *x.Referrers() {
+				switch r := ref.(type) {
+				case *ssa.Store:
+					if r.Addr == ssa.Value(x) {
+						structVal(r.Val, depth+1)
+					}
+				case *ssa.FieldAddr:
+					if r.Field == fld {
+						for _, st := range storesTo(r) {
+							if s, isC := constString(st.Val); isC {
+								out[s] = true
+								n++
+							} else {
+								*ok = false
+							}
+						}
+					}
+				}
+			}
+		case *ssa.IndexAddr:
+			tableElems(x.X, depth+1)
+		default:
+			*ok = false
+		}
+	}
+	structVal = func(v ssa.Value, depth int) {
+		if v == nil || depth > 10 {
+			return
+		}
+		switch x := v.(type) {
+		case *ssa.UnOp:
+			if x.Op == token.MUL {
+				structAddr(x.X, depth+1)
+				return
+			}
+		case *ssa.Phi:
+			for _, e := range x.Edges {
+				structVal(e, depth+1)
+			}
+			return
+		}
+		*ok = false
+	}
+	tableElems = func(t ssa.Value, depth int) {
+		if t == nil || depth > 10 || visited[t] {
+			return
+		}
+		visited[t] = true
+		switch x := t.(type) {
+		case *ssa.Slice:
+			tableElems(x.X, depth+1)
+		case *ssa.Phi:
+			for _, e := range x.Edges {
+				tableElems(e, depth+1)
+			}
+		case *ssa.Alloc: // the backing array
+			if x.Referrers() == nil {
+				return
+			}
+			for _, ref := range *x.Referrers() {
+				ia, isIA := ref.(*ssa.IndexAddr)
+				if !isIA {
+					continue
+				}
+				for _, st := range storesTo(ia) {
+					structVal(st.Val, depth+1)
+				}
+				if ia.Referrers() != nil {
+					for _, r2 := range *ia.Referrers() {
+						if fa, isFA := r2.(*ssa.FieldAddr); isFA && fa.Field == fld {
+							for _, st := range storesTo(fa) {
+								if s, isC := constString(st.Val); isC {
+									out[s] = true
+									n++
+								} else {
+									*ok = false
+								}
+							}
+						}
+					}
+				}
+			}
+		case *ssa.UnOp:
+			if g, isG := x.X.(*ssa.Global); isG && x.Op == token.MUL {
+				for _, sp := range p.SSAPkg {
+					if sp.Pkg != g.Pkg.Pkg {
+						continue
+					}
+					for _, f := range pkgFuncs(p.SSA, sp) {
+						for _, b := range f.Blocks {
+							for _, in := range b.Instrs {
+								if st, isSt := in.(*ssa.Store); isSt && st.Addr == ssa.Value(g) {
+									if !strings.HasPrefix(f.Name(), "init") {
+										*ok = false
+									}
+									tableElems(st.Val, depth+1)
+								}
+							}
+						}
+					}
+				}
+				return
+			}
+			*ok = false
+		default:
+			*ok = false
+		}
+	}
+	tableElems(tbl, 0)
+	if n == 0 {
+		*ok = false
+	}
+}
+
+// fieldOfLocalStrings: constants that field #fld of the local struct variable al can hold.
+func fieldOfLocalStrings(p *Program, al *ssa.Alloc, fld int, out map[string]bool, ok *bool) {
+	// reuse the table walker: a local struct is a one-row table reached through its stores
+	n := len(out)
+	if al.Referrers() == nil {
+		*ok = false
+		return
+	}
+	for _, ref := range *al.Referrers() {
+		switch r := ref.(type) {
+		case *ssa.Store:
+			if r.Addr != ssa.Value(al) {
+				continue
+			}
+			if ld, isLd := r.Val.(*ssa.UnOp); isLd && ld.Op == token.MUL {
+				switch a := ld.X.(type) {
+				case *ssa.IndexAddr:
+					rowFieldStrings(p, a.X, fld, nil, out, ok)
+				case *ssa.Alloc:
+					fieldOfLocalStrings(p, a, fld, out, ok)
+				default:
+					*ok = false
+				}
+			} else {
+				*ok = false
+			}
+		case *ssa.FieldAddr:
+			if r.Field == fld {
+				for _, st := range storesTo(r) {
+					if s, isC := constString(st.Val); isC {
+						out[s] = true
+					} else {
+						*ok = false
+					}
+				}
+			}
+		}
+	}
+	if len(out) == n {
+		*ok = false
+	}
+}
+
+// forwardFieldLoad: v is a load of a boolean struct field that this function assigns exactly once, before the
+// load, with no call in between that receives the struct (so nothing else can have changed it): the stored
+// value. Otherwise nil. (`cr.isEOF = err == io.EOF; ...; if cr.isEOF` tests err == io.EOF.)
+func forwardFieldLoad(v ssa.Value) ssa.Value {
+	ld, ok := v.(*ssa.UnOp)
+	if !ok || ld.Op != token.MUL {
+		return nil
+	}
+	fa, ok := ld.X.(*ssa.FieldAddr)
+	if !ok {
+		return nil
+	}
+	if b, isB := ld.Type().Underlying().(*types.Basic); !isB || b.Kind() != types.Bool {
+		return nil
+	}
+	f := ld.Parent()
+	if f == nil {
+		return nil
+	}
+	var store *ssa.Store
+	n := 0
+	for _, b := range f.Blocks {
+		for _, in := range b.Instrs {
+			st, ok := in.(*ssa.Store)
+			if !ok {
+				continue
+			}
+			fa2, ok := st.Addr.(*ssa.FieldAddr)
+			if !ok || fa2.Field != fa.Field || fa2.X != fa.X {
+				continue
+			}
+			n++
+			store = st
+		}
+	}
+	if n != 1 || !mayPrecede(store, ld) || mayPrecede(ld, store) {
+		return nil
+	}
+	// no call that is handed the struct between the store and the load
+	for _, b := range f.Blocks {
+		for _, in := range b.Instrs {
+			c, ok := in.(ssa.CallInstruction)
+			if !ok {
+				continue
+			}
+			gets := false
+			for _, a := range c.Common().Args {
+				if a == fa.X {
+					gets = true
+				}
+			}
+			if c.Common().IsInvoke() && c.Common().Value == fa.X {
+				gets = true
+			}
+			if gets && mayPrecede(store, c) && mayPrecede(c, ld) {
+				return nil
+			}
+		}
+	}
+	return store.Val
 }
